@@ -6,3 +6,14 @@ func (w *World) fireDue() int {
 	defer func() { w.onlyDue = false }()
 	return w.FireTimers()
 }
+
+// clampI64 keeps logged integers inside TLC's 32-bit range (|v| <= 10^9): extreme values are logged as +/-10^9.
+func clampI64(v int64) int64 {
+	if v > 1000000000 {
+		return 1000000000
+	}
+	if v < -1000000000 {
+		return -1000000000
+	}
+	return v
+}
